@@ -22,7 +22,7 @@ SPEC = {
  "C14": ("RoundTrip RLEProof RLEPer CanonProof ToArray StepProof StartEnd BinaryProof RLConcat", ["to_array_from_array","from_array_canonical","decode_from_array","decode_from_array_R","to_array_correct","join_runs_canonical","start_to_end_shape","step_subset_pos","apply_binary_correct","rl_concat_correct"]),
  "C15": ("RLEIndex RLEIndex2 RLEWindows RLEWindowsVecProof GetSlice StartEnd StepProof StepNeg", ["get_position_correct","get_positions_correct","get_bool_mask_correct","rl_windows_decode","start_to_end_vec_is_rows","start_to_end_vec_decode","rl_getitem_rlmask_correct","get_slice_correct","start_to_end_decode","start_to_end_shape","step_subset_pos","step_subset_neg"]),
  "C16": ("BinaryProof RLEMisc RLConcat RLEReduce", ["apply_binary_correct","rl_map_correct","rl_sum_correct","rl_any_correct","rl_all_correct","rl_max_correct","rl_mean_correct","rl_hist_correct","rl_concat_correct"]),
- "C17": ("RLEMisc BinaryProof RL2Proof RL2Col RL2Ravel RL2Elem RL2Argmax MatrixDecode ColProof RL2ColSum RL2ColCounts RL2Intervals RL2Range RL2RangeStep RL2RangeOpen RL2AnyProof", ["from_ragged_decode","from_matrix_decode","rl2_select_correct","rl2_map_correct","rl2_concat_correct","rl2_sum_correct","rl2_max_argmax_correct","rl2_col_correct","rl2_ravel_correct","rl2_elem_correct","rl2_col_sum_correct","rl2_col_sum_matrix_correct","rl2_col_counts_correct","from_intervals_decode","rl2_col_range_pos1_partial","rl2_col_range_pos_partial","rl2_col_range_pos","rl2_col_range_neg_inside","rl2_col_range_neg","col_any_is_sweep","sweep_intervals","col_range_row_is_start_to_end"]),
+ "C17": ("RLEMisc BinaryProof RL2Proof RL2Col RL2Ravel RL2Elem RL2Argmax MatrixDecode ColProof RL2ColSum RL2ColCounts RL2Intervals RL2Range RL2RangeStep RL2RangeOpen RL2AnyProof RL2AnyRows", ["from_ragged_decode","from_matrix_decode","rl2_select_correct","rl2_map_correct","rl2_concat_correct","rl2_sum_correct","rl2_max_argmax_correct","rl2_col_correct","rl2_ravel_correct","rl2_elem_correct","rl2_col_sum_correct","rl2_col_sum_matrix_correct","rl2_col_counts_correct","from_intervals_decode","rl2_col_range_pos1_partial","rl2_col_range_pos_partial","rl2_col_range_pos","rl2_col_range_neg_inside","rl2_col_range_neg","col_any_is_sweep","sweep_intervals","col_any_correct","col_any_matrix","col_range_row_is_start_to_end"]),
  "C18": ("DataClassProof DataClassAstype DataClassIter", ["obj_iter_entries","obj_iter_length","obj_select_entries","obj_item_entry","obj_concat_entries","obj_eqb_iff","varlen_rows","obj_astype_entries","obj_astype_refused","obj_astype_item"]),
  "C19": ("IdxWidth Shape", ["index_rows_width_independent","excl_prefix_in32","wrap32_id","shape_codes_width_independent","geometry_additions_width_independent"]),
 }
